@@ -1,4 +1,5 @@
 from rogw.tranp.data.meta.types import ModuleMeta, ModuleMetaFactory
+from rogw.tranp.errors import Errors
 from rogw.tranp.file.loader import ISourceLoader
 from rogw.tranp.lang.annotation import implements, injectable
 from rogw.tranp.lang.locator import Invoker
@@ -90,8 +91,13 @@ class ModuleLoader(IModuleLoader):
 			module: モジュール
 		"""
 		for proc in self.processors():
-			if not proc(module, self.db):
-				break
+			try:
+				if not proc(module, self.db):
+					break
+			except Errors.Error:
+				raise
+			except Exception as e:
+				raise Errors.Fatal(module, 'Unhandled error', e) from e
 
 
 @injectable
